@@ -60,6 +60,17 @@ def check_case(rep, case, name):
         rng = random.Random(case['seed'])
         lines = forms.split('\n')
         if case.get('reorder'): lines = list(reversed(lines))
+        if case.get('callspace'):
+            # the same formulas with white space between a form's name and its argument list where one form calls another: `g (r, 2.0)`
+            import re
+            names_ = [l.split('(')[0].strip() for l in lines if '(' in l]
+            def _sp(l):
+                i_ = l.index('=') if '=' in l else -1
+                if i_ < 0: return l
+                rhs = l[i_ + 1:]
+                for n_ in names_: rhs = re.sub(r'(?<![A-Za-z0-9_.])%s\(' % re.escape(n_), n_ + ' (', rhs)
+                return l[:i_ + 1] + rhs
+            lines = [_sp(l) for l in lines]
         if case.get('colon'): lines = [l.replace(' = ', ' : ', 1) if ' = ' in l else l.replace('=', ':', 1) for l in lines]
         where = case.get('where', 'Pair')
         try:
@@ -67,13 +78,14 @@ def check_case(rep, case, name):
         except Exception as e: rep.dev(name, case, 'exception %r' % (e,), 'a potential'); return
         for x in case['rs']:
             want = ref(x) + (1.0 if case.get('wrap') else 0.0)
-            got = f(x)
+            try: got = f(x)
+            except Exception as e: rep.dev(name, dict(case, rs=[x]), 'exception at r=%r: %s' % (x, str(e)[:160]), want); return
             if abs(got - want) > 1e-9 * max(1.0, abs(want)): rep.dev(name, dict(case, rs=[x]), 'custom form at r=%r: %r' % (x, got), want); return
             rep.ok()
 
 def gen_case(rng, i):
     if i % 4 == 3:
-        return dict(kind='custom', index=rng.randrange(len(CUSTOM)), seed=rng.randint(0, 10 ** 6), reorder=rng.random() < 0.5, colon=rng.random() < 0.5, wrap=rng.random() < 0.4,
+        return dict(kind='custom', index=rng.randrange(len(CUSTOM)), seed=rng.randint(0, 10 ** 6), reorder=rng.random() < 0.5, colon=rng.random() < 0.5, wrap=rng.random() < 0.4, callspace=rng.random() < 0.5,
                     rs=[round(rng.uniform(0.2, 6), 3) for _ in range(4)] + [1.0, 2.0, 2.5])
     d, a = round(rng.uniform(1.0, 2.5), 2), None
     return dict(kind='tree', tree=gen(rng, rng.randint(0, 3)), seed=rng.randint(0, 10 ** 6), ranges=([d, round(d + rng.uniform(0.5, 2), 2)] if rng.random() < 0.3 else None),
